@@ -798,3 +798,10 @@ SUBS = [
     Sub("construct", lambda tier: strat_construct(tier), run_construct, quick=1600, thorough=30000, about="constructors that must reject"),
     Sub("graph", lambda tier: strat_graph(tier), run_graph, quick=3200, thorough=80000, about="cycle-closing and unknown dependencies in a Nexus"),
 ]
+
+
+def extra(tier, seed):
+    """thorough tier: coverage-guided campaign (atheris / libFuzzer) over the same strategy and oracle, see kverif/fuzz.py"""
+    from ..fuzz import thorough_extra
+
+    return thorough_extra(PROPERTY, [("graph", 20000, 8), ("sources", 10000, 8)], tier, seed)
